@@ -71,9 +71,9 @@ def S (s : String) : Str := s.toList
 
 /-- a calculated, read-only string bind -/
 def calcBind (nodeset expr : Str) : XNode :=
-  { tag := "bind", attrs := [("nodeset", nodeset), ("calculate", expr), ("type", S "string"), ("readonly", S "true()")] }
+  { tag := "bind", attrs := sortAttrs [("nodeset", nodeset), ("calculate", expr), ("type", S "string"), ("readonly", S "true()")] }
 
-/-- attributes of `meta/entity` -/
+/-- attributes of `meta/entity` (a set: compared in the canonical order of `sortAttrs`) -/
 def entityAttrs (ds : Str) (a : Action) : List (String × Str) :=
   [("dataset", ds), ("id", [])]
   ++ (if a.updates then [("update", S "1"), ("baseVersion", []), ("trunkVersion", []), ("branchId", [])] else [])
@@ -88,11 +88,11 @@ def versionExpr (ds idE : Str) (field : String) : Str :=
 def entityNodes (E : Str) (sub : Str → Str) (ds idE cE uE lE : Str) (label : Bool) (a : Action) : List XNode :=
   (if a.condCreate then [calcBind (E ++ S "/@create") (sub cE)] else [])
   ++ [{ tag := "bind",
-        attrs := [("nodeset", E ++ S "/@id"), ("type", S "string"), ("readonly", S "true()")]
-                 ++ (if a.updates then [("calculate", sub idE)] else []) }]
+        attrs := sortAttrs ([("nodeset", E ++ S "/@id"), ("type", S "string"), ("readonly", S "true()")]
+                 ++ (if a.updates then [("calculate", sub idE)] else [])) }]
   ++ (if a.creates then
         [{ tag := "setvalue",
-           attrs := [("ref", E ++ S "/@id"), ("event", S "odk-instance-first-load"), ("type", S "string"),
+           attrs := sortAttrs [("ref", E ++ S "/@id"), ("event", S "odk-instance-first-load"), ("type", S "string"),
                      ("readonly", S "true()"), ("value", S "uuid()")] }] else [])
   ++ (if a.condUpdate then [calcBind (E ++ S "/@update") (sub uE)] else [])
   ++ (if a.updates then
@@ -102,7 +102,7 @@ def entityNodes (E : Str) (sub : Str → Str) (ds idE cE uE lE : Str) (label : B
   ++ (if label then [calcBind (E ++ S "/label") (sub lE)] else [])
 
 def entityNode (ds : Str) (label : Bool) (a : Action) : XNode :=
-  { tag := "entity", attrs := entityAttrs ds a, kids := if label then ["label"] else [] }
+  { tag := "entity", attrs := sortAttrs (entityAttrs ds a), kids := if label then ["label"] else [] }
 
 /-! ### names -/
 
